@@ -238,6 +238,11 @@ Proof.
   - cbn [fst snd]. split; [dstep|evs].
   - cbn [fst snd]. split; [dstep|evs].
   - cbn [fst snd]. split; [dstep|evs].
+  - cbn [fst snd]. split; [dstep|evs].
+  - cbn [fst snd]. split; [dstep|evs].
+  - cbn [fst snd]. split; [dstep|evs].
+  - cbn [fst snd]. split; [dstep|evs].
+  - cbn [fst snd]. split; [dstep|evs].
 Qed.
 
 Lemma disc_inv_init d0 progs :
@@ -424,6 +429,11 @@ Proof.
     destruct Hinv as [Ha Hb]. destruct (Hb t ts p Ht Hreg) as [r [Hr Hfr]]. rewrite Hr.
     cbn [fst snd]. split; [|eevs].
     refine (err_inv_recmod st t ts _ (p_idx p) r _ (conj Ha Hb) Ht _ Hr _); [cbn; symmetry; exact Hreg|]. intros it [].
+  - cbn [fst snd]. split; [estep|eevs].
+  - cbn [fst snd]. split; [estep|eevs].
+  - cbn [fst snd]. split; [estep|eevs].
+  - cbn [fst snd]. split; [estep|eevs].
+  - cbn [fst snd]. split; [estep|eevs].
   - cbn [fst snd]. split; [estep|eevs].
   - cbn [fst snd]. split; [estep|eevs].
   - cbn [fst snd]. split; [estep|eevs].
@@ -963,4 +973,105 @@ Proof.
   split.
   - apply (replay_rets_unique _ _ d0); [rewrite expect_map_fst; reflexivity|exact Hok|exact H1].
   - intro x. rewrite (Hfin Hl). rewrite replay_fst_expect. apply H2.
+Qed.
+
+(* ---------------------------------------------------------------------------------------------------------------
+   logging options: thread-local overrides are invisible to other threads
+   --------------------------------------------------------------------------------------------------------------- *)
+Definition log_inv (g0 : N) (Z : tid -> bool) (st : state) : Prop :=
+  s_logopts st = g0 /\
+  forall t ts, nth_error (s_thr st) t = Some ts ->
+    global_log_free (t_rem ts) = true /\
+    (Z t = true -> s_temp st t = None /\ temp_log_free (t_rem ts) = true).
+
+Definition log_good (g0 : N) (Z : tid -> bool) (t : tid) (e : event) : Prop :=
+  forall v, e = EvLogOpts v -> Z t = true -> v = g0.
+
+Lemma existsb_skipn {A} (f : A -> bool) n : forall p, existsb f (skipn n p) = true -> existsb f p = true.
+Proof.
+  induction n as [|n IH]; intros p H; [exact H|]. destruct p as [|x p]; [exact H|]. cbn [skipn] in H. cbn.
+  rewrite (IH p H). apply orb_true_r.
+Qed.
+
+Lemma free_tl (f : step -> bool) s p : negb (existsb f (s :: p)) = true -> f s = false /\ negb (existsb f p) = true.
+Proof. cbn. destruct (f s); cbn; [discriminate|auto]. Qed.
+
+Lemma free_skipn (f : step -> bool) n p : negb (existsb f p) = true -> negb (existsb f (skipn n p)) = true.
+Proof.
+  intro H. destruct (existsb f (skipn n p)) eqn:E; [|reflexivity]. rewrite (existsb_skipn f n p E) in H. discriminate.
+Qed.
+
+Lemma log_inv_step g0 Z st st1 t ts ts' :
+  log_inv g0 Z st -> nth_error (s_thr st) t = Some ts -> s_thr st1 = s_thr st -> s_logopts st1 = g0 ->
+  (forall u, u <> t -> s_temp st1 u = s_temp st u) ->
+  global_log_free (t_rem ts') = true ->
+  (Z t = true -> s_temp st1 t = None /\ temp_log_free (t_rem ts') = true) ->
+  log_inv g0 Z (set_thr st1 (lset (s_thr st1) t ts')).
+Proof.
+  intros [Hg Hall] Ht Hthr Hlog Hoth Hgf Hz. split; [exact Hlog|].
+  intros u tsu Hu. cbn [s_thr set_thr s_temp] in *. rewrite Hthr in Hu. destruct (Nat.eq_dec t u) as [->|Hne].
+  - rewrite (lset_same _ _ _ _ Ht) in Hu. inversion Hu; subst tsu. split; [exact Hgf|exact Hz].
+  - rewrite lset_other in Hu by exact Hne. destruct (Hall u tsu Hu) as [H1 H2]. split; [exact H1|].
+    intro Hzu. rewrite Hoth by auto. apply H2; exact Hzu.
+Qed.
+
+Lemma exec_log g0 Z st t :
+  log_inv g0 Z st -> log_inv g0 Z (fst (exec st t)) /\ forall e, In e (snd (exec st t)) -> log_good g0 Z t e.
+Proof.
+  intro Hinv. unfold exec. destruct (nth_error (s_thr st) t) as [ts|] eqn:Ht; [|split; [exact Hinv|intros e []]].
+  destruct (t_rem ts) as [|stp rest] eqn:Hrem; [split; [exact Hinv|intros e []]|].
+  pose proof Hinv as [Hg Hall]. destruct (Hall t ts Ht) as [Hgf Hz]. rewrite Hrem in Hgf, Hz.
+  destruct (free_tl _ _ _ Hgf) as [Hgs Hgr].
+  assert (Hzr : Z t = true -> s_temp st t = None /\ is_temp_log stp = false /\ temp_log_free rest = true).
+  { intro H. destruct (Hz H) as [H1 H2]. destruct (free_tl _ _ _ H2) as [H3 H4]. auto. }
+  assert (Hgen : forall st1 r loc, s_thr st1 = s_thr st -> s_logopts st1 = s_logopts st -> s_temp st1 = s_temp st ->
+            log_inv g0 Z (set_thr st1 (lset (s_thr st1) t (mkT rest r loc)))).
+  { intros st1 r loc H1 H2 H3. apply log_inv_step with (st := st) (ts := ts); auto.
+    - rewrite H2; exact Hg.
+    - intros u _. rewrite H3; reflexivity.
+    - intro H. destruct (Hzr H) as [Ha [_ Hc]]. rewrite H3. auto. }
+  destruct stp; cbn [exec_step];
+    try (destruct (holder st m) eqn:Hh); try (destruct (holds st t m));
+    try (destruct (negb (s_dict st s =? 0)));
+    try (match goal with |- context [skipn] => fail 1 | |- context [flag (t_reg ts)] => destruct (flag (t_reg ts)) end);
+    try (match goal with |- context [find_rec (s_erecs st) t 0] => destruct (find_rec (s_erecs st) t 0) end);
+    try (match goal with |- context [err_resize ?x1 ?x2 ?x3 ?x4] => destruct (err_resize x1 x2 x3 x4) as [[g sz] md] end);
+    try (match goal with |- context [match t_reg ts with _ => _ end] => destruct (t_reg ts) as [|b0|[p0|]|b0] end);
+    try (destruct (nth_error (s_erecs st) (p_idx p0)));
+    cbn [fst snd];
+    try (split; [first [exact Hinv | apply Hgen; try reflexivity; destruct m; reflexivity]
+                | intros ev Hev; cbn [In] in Hev; repeat (destruct Hev as [<-|Hev]; [let HH := fresh "HH" in intros ? HH; discriminate HH|]); contradiction]);
+    try discriminate.
+  - (* SkipIf *)
+    split; [|intros ev []]. apply log_inv_step with (st := st) (ts := ts); auto; cbn [t_rem].
+    + destruct (Bool.eqb (flag (t_reg ts)) b); [apply free_skipn|]; exact Hgr.
+    + intro H. destruct (Hzr H) as [Ha [_ Hc]]. split; [exact Ha|].
+      destruct (Bool.eqb (flag (t_reg ts)) b); [apply free_skipn|]; exact Hc.
+  - (* LogTempSet *)
+    split; [|intros ev []]. apply log_inv_step with (st := st) (ts := ts); [exact Hinv|exact Ht|reflexivity|exact Hg| |exact Hgr| ]; cbn [t_rem s_temp set_log].
+    + intros u Hu. unfold oupd. destruct (Nat.eqb u t) eqn:E; [apply Nat.eqb_eq in E; congruence|reflexivity].
+    + intro H. destruct (Hzr H) as [_ [Hb _]]. cbn in Hb. discriminate.
+  - (* LogTempClear *)
+    split; [|intros ev []]. apply log_inv_step with (st := st) (ts := ts); [exact Hinv|exact Ht|reflexivity|exact Hg| |exact Hgr| ]; cbn [t_rem s_temp set_log].
+    + intros u Hu. unfold oupd. destruct (Nat.eqb u t) eqn:E; [apply Nat.eqb_eq in E; congruence|reflexivity].
+    + intro H. destruct (Hzr H) as [_ [Hb _]]. cbn in Hb. discriminate.
+  - (* LogObserve *)
+    split; [apply Hgen; reflexivity|]. intros ev [<-|[]] v Hv Hzt. inversion Hv; subst v.
+    destruct (Hzr Hzt) as [Ha _]. rewrite Ha. exact Hg.
+Qed.
+
+Theorem log_temp_override_isolated g0 d0 progs sched t p :
+  (forall q, In q progs -> global_log_free q = true) ->
+  nth_error progs t = Some p -> temp_log_free p = true ->
+  forall v, In (t, EvLogOpts v) (snd (run sched (init_log g0 d0 progs))) -> v = g0.
+Proof.
+  intros Hall Hp Hfree.
+  pose (Z := fun u => match nth_error progs u with Some q => temp_log_free q | None => false end).
+  assert (H0 : log_inv g0 Z (init_log g0 d0 progs)).
+  { split; [reflexivity|]. intros u tsu Hu. cbn [init_log s_thr s_temp] in *. rewrite nth_error_map in Hu.
+    destruct (nth_error progs u) as [q|] eqn:Hq; cbn in Hu; [|discriminate]. inversion Hu; subst tsu. cbn [t_rem]. split.
+    - apply Hall. eapply nth_error_In; exact Hq.
+    - intro Hz. unfold Z in Hz. rewrite Hq in Hz. auto. }
+  destruct (run_invariant (log_inv g0 Z) (log_good g0 Z) (exec_log g0 Z) sched _ H0) as [_ HG].
+  intros v Hin. apply (HG t _ Hin v eq_refl). unfold Z. rewrite Hp. exact Hfree.
 Qed.
